@@ -717,14 +717,24 @@ impl Div for &Number {
             Number::Fixnum(lhs) => match rhs {
                 Number::Fixnum(rhs) => {
                     if lhs.to_i32().is_some() && rhs.to_i32().is_some() {
-                        Rational32::new(*lhs as i32, *rhs as i32).into()
+                        match Rational32::from_integer(*lhs as i32)
+                            .checked_div(&Rational32::from_integer(*rhs as i32))
+                        {
+                            Some(num) => num.into(),
+                            None => (*lhs as f64 / *rhs as f64).into(),
+                        }
                     } else {
                         (*lhs as f64 / *rhs as f64).into()
                     }
                 }
                 Number::BigInt(rhs) => {
                     if lhs.to_i32().is_some() && rhs.to_i32().is_some() {
-                        Rational32::new(*lhs as i32, rhs.to_i32().unwrap()).into()
+                        match Rational32::from_integer(*lhs as i32)
+                            .checked_div(&Rational32::from_integer(rhs.to_i32().unwrap()))
+                        {
+                            Some(num) => num.into(),
+                            None => (*lhs as f64 / rhs.to_f64().unwrap_or(f64::NAN)).into(),
+                        }
                     } else {
                         (*lhs as f64 / rhs.to_f64().unwrap_or(f64::NAN)).into()
                     }
@@ -744,14 +754,26 @@ impl Div for &Number {
             Number::BigInt(lhs) => match rhs {
                 Number::Fixnum(rhs) => {
                     if lhs.to_i32().is_some() && rhs.to_i32().is_some() {
-                        (Rational32::new(lhs.to_i32().unwrap(), *rhs as i32)).into()
+                        match Rational32::from_integer(lhs.to_i32().unwrap())
+                            .checked_div(&Rational32::from_integer(*rhs as i32))
+                        {
+                            Some(num) => num.into(),
+                            None => (lhs.to_f64().unwrap_or(f64::NAN) / *rhs as f64).into(),
+                        }
                     } else {
                         (lhs.to_f64().unwrap_or(f64::NAN) / *rhs as f64).into()
                     }
                 }
                 Number::BigInt(rhs) => {
                     if lhs.to_i32().is_some() && rhs.to_i32().is_some() {
-                        (Rational32::new(lhs.to_i32().unwrap(), rhs.to_i32().unwrap())).into()
+                        match Rational32::from_integer(lhs.to_i32().unwrap())
+                            .checked_div(&Rational32::from_integer(rhs.to_i32().unwrap()))
+                        {
+                            Some(num) => num.into(),
+                            None => (lhs.to_f64().unwrap_or(f64::NAN)
+                                / rhs.to_f64().unwrap_or(f64::NAN))
+                            .into(),
+                        }
                     } else {
                         (lhs.to_f64().unwrap_or(f64::NAN) / rhs.to_f64().unwrap_or(f64::NAN)).into()
                     }
